@@ -31,8 +31,10 @@ def run(ctx):
             bad.append((c, "model evaluation produced no result for this case"))
         elif r[0] != 0:
             so = c["observed"][r[0] - 1]
-            bad.append((c, "stop position k=%d: implementation delivered %d items in %d calls, the model (= the unique list meeting the spec) differs"
-                        % (so["k"], len(so["items"] or []), so["calls"])))
+            bad.append((c, "stop position k=%d (%s reading%s): implementation delivered %d items in %d calls, the model (= the unique list meeting the spec) differs"
+                        % (so["k"], so.get("reading", "in-loop"),
+                           ": Items kept and their chains read after the walk returned" if so.get("reading") == "kept" else "",
+                           len(so["items"] or []), so["calls"])))
     if bad:
         # smallest failing plan first: the replay is the failing input itself
         bad.sort(key=lambda x: x[0]["dist"]["objects"])
@@ -46,12 +48,16 @@ def run(ctx):
         distinct_nontrivial=fw.distinct_nontrivial(cases),
         rule="plans from harness/plangen (1-3 blocks, 1-3 sequences, 1-3 actions, each of the 10 check groups with p in {.15,.4,.7,1}), "
              "then nil/empty slices injected; for each plan the walk is run with a consumer stopping at every position k=1..n+1 and never; "
+             "every walk is read twice: each Item abstracted inside the consumer, and the Item values kept (Chain not copied) and abstracted after the walk returned "
+             "(aliased chains); the kept reading of the full walk always goes to the model, that of an early stop when it differs from the in-loop reading; "
              "evaluations = (plan, stop position) pairs; distinct = distinct full walks (hash of the yielded path/chain list); non-trivial = more than 3 objects",
         samples=[dict(id=c["id"], input=c["input"], dist=c["dist"], full_walk=c["observed"][0]["items"][:12]) for c in cases[:3]],
         traces_validated_against_impl=stops,
         plans=len(cases),
         distribution=dict(objects=fw.histogram(c["dist"]["objects"] for c in cases),
                           blocks=fw.histogram(c["dist"]["blocks"] for c in cases),
+                          max_sequences_with_actions_in_a_block=fw.histogram(c["dist"]["seqs_with_actions"] for c in cases),
+                          kept_reading_differs_from_in_loop=fw.histogram(c["dist"]["kept_differs"] for c in cases),
                           reshaped=fw.histogram(x.split(":")[1] if ":" in x else x for c in cases for x in (c["dist"]["reshaped"] or ["none"]))),
         coq_shards=[dict(shard=i["shard"], n=i["n"], rc=i["rc"], wall_s=round(i["wall"], 1)) for i in infos],
     ), assumptions=["the path numbering of objects and the abstraction of Go values to Coq terms done by the harness",
